@@ -1,39 +1,75 @@
 #!/venv/bin/python
-"""Re-run the protocol of tools/seeded.py for every kept seeded change against
-the CURRENT /repo and the CURRENT checks, and write seeded/SWEEP.json:
-per change, does the patch still apply, does the demo still fail with it /
-pass without it, does the pinned suite still pass, and which quick check
-reports it (with the signature of the first violation).
+"""Re-run every kept seeded change against the CURRENT /repo and the CURRENT
+checks and write seeded/SWEEP.json.
 
-  seeded_sweep.py [id ...]      (default: every directory under seeded/)
+  seeded_sweep.py [--full] [id ...]      (default: every directory under seeded/)
+
+Default (re-check): the confirmation recorded in seeded/<id>/meta.json (demo
+fails with / passes without the change, pinned suite still passes) is kept;
+what is re-done is: the patch must still apply to the current tree, the demo
+must still fail with it, and the quick check(s) that caught it must still
+report a violation (VERIF_STOP_ON_VIOLATION=1).  --full repeats the whole
+protocol of tools/seeded.py instead (adds the pinned suite: ~1 min more each).
 """
 import json
 import os
+import shutil
 import subprocess
 import sys
 
 HERE = "/verif"
-ids = sys.argv[1:] or sorted(d for d in os.listdir(f"{HERE}/seeded") if os.path.isdir(f"{HERE}/seeded/{d}"))
+args = sys.argv[1:]
+full = "--full" in args
+args = [a for a in args if a != "--full"]
+ids = args or sorted(d for d in os.listdir(f"{HERE}/seeded") if os.path.isdir(f"{HERE}/seeded/{d}"))
 rows = []
+
+
+def sh(cmd, **kw):
+    return subprocess.run(cmd, shell=True, capture_output=True, text=True, **kw)
+
+
 for sid in ids:
     d = f"{HERE}/seeded/{sid}"
     if not os.path.exists(f"{d}/patch.diff"):
         continue
     meta = json.load(open(f"{d}/meta.json"))
     props = meta.get("caught_by") or [meta.get("property")]
-    p = subprocess.run([f"{HERE}/tools/seeded.py", d, sid] + props, capture_output=True, text=True)
-    m = json.load(open(f"{d}/meta.json"))
-    sig = []
-    for pr, r in m["checks_run"].items():
-        for line in r["lines"]:
-            if line.startswith("violation:"):
-                sig.append(line.split()[1])
-                break
-    row = {"id": sid, "property": m.get("property"), "confirmed": m["confirmed"], "caught_by": m["caught_by"],
-           "wall_s": {k: v["wall_s"] for k, v in m["checks_run"].items()}, "first_signature": sig[:2]}
+    if full:
+        subprocess.run([f"{HERE}/tools/seeded.py", d, sid] + props, capture_output=True, text=True)
+        m = json.load(open(f"{d}/meta.json"))
+        row = {"id": sid, "property": m.get("property"), "applies": m["log"].get("apply_rc") == 0,
+               "confirmed": m["confirmed"], "caught_by": m["caught_by"]}
+        sig = [line.split()[1] for r in m["checks_run"].values() for line in r["lines"] if line.startswith("violation:")]
+        row["first_signature"] = sig[:1]
+    else:
+        tree = f"/dev/shm/sweep-tree-{sid}"
+        out = f"/dev/shm/sweep-out-{sid}"
+        shutil.rmtree(tree, ignore_errors=True)
+        shutil.rmtree(out, ignore_errors=True)
+        sh(f"rsync -a --exclude .git --exclude __pycache__ /repo/ {tree}/")
+        ap = sh(f"cd {tree} && git apply -p1 {d}/patch.diff")
+        row = {"id": sid, "property": meta.get("property"), "applies": ap.returncode == 0, "caught_by": [], "first_signature": []}
+        if ap.returncode == 0:
+            dm = sh(f"cd {tree} && PYTHONPATH={tree} /venv/bin/python {d}/demo.py", timeout=600)
+            row["demo_fails_with_change"] = dm.returncode != 0
+            for p in props:
+                env = dict(os.environ, VERIF_STOP_ON_VIOLATION="1", VERIF_OUT=out, UNYT_SRC=tree)
+                c = subprocess.run(f"cd {HERE} && /venv/bin/python check.py quick {p}", shell=True, capture_output=True,
+                                   text=True, env=env)
+                if c.returncode == 1:
+                    row["caught_by"].append(p)
+                    for line in c.stdout.splitlines():
+                        if line.startswith(("violation:", "regression:")):
+                            row["first_signature"].append(line.split()[1] if line.startswith("violation:") else "regression-replay")
+                            break
+                elif c.returncode != 0:
+                    row.setdefault("harness_error", []).append(p)
+        shutil.rmtree(tree, ignore_errors=True)
+        shutil.rmtree(out, ignore_errors=True)
     rows.append(row)
     print(row, flush=True)
     json.dump(rows, open(f"{HERE}/seeded/SWEEP.json", "w"), indent=1)
-missed = [r["id"] for r in rows if not r["caught_by"] or not all(r["confirmed"].values())]
-print(f"{len(rows)} seeded changes, {len(missed)} not confirmed-and-caught: {missed}")
-sys.exit(1 if missed else 0)
+bad = [r["id"] for r in rows if not r["applies"] or not r["caught_by"] or r.get("demo_fails_with_change") is False]
+print(f"{len(rows)} seeded changes, {len(bad)} needing attention: {bad}")
+sys.exit(1 if bad else 0)
